@@ -1,4 +1,6 @@
 import Pymeeus.Refine.FindersJde
+import Pymeeus.Refine.FinderAngles
+import Pymeeus.Refine.FinderNodes
 /-
 C13 — Planetary event finders return real events, in order, none skipped.
 
@@ -374,6 +376,148 @@ theorem pa_first_approximation_never_backwards_jde : ∀ r ∈ generatedPA, ∀ 
   refine ⟨_, _, by unfold pa_from_jde; rw [e1], by unfold pa_from_jde; rw [e2], ?_⟩
   exact pa_first_approximation_never_backwards r hr p _ _ c1 hv c2
 
+/-! ### Growth round: facts about the series tables, the reported angle, the brackets, the boundaries -/
+
+/-- The periodic-term series of every finder, read as a polynomial in `t` (sin/cos counted as 1): degree at most 2,
+    the linear coefficients sum to at most 0.14 day per century and the quadratic ones to at most 0.002 day per
+    century² - so over the whole domain (|t| ≤ 41) the amplitudes of Meeus' tables drift by days, not weeks.
+    Decided by the kernel on the regenerated records (a t² coefficient that loses a zero, e.g. 0.00029 -> 0.0029
+    in Jupiter.conjunction, makes the quadratic sum 0.0032 and this false). -/
+theorem series_coefficients_bounded : ∀ r ∈ generatedFinders,
+    r.corr.coefs.length ≤ 3 ∧ r.corr.coefs.getD 1 0 ≤ 14 / 100 ∧ r.corr.coefs.getD 2 0 ≤ 2 / 1000 := by decide +kernel
+
+/-- Exactly the four greatest-elongation finders report an angle, and their series keeps the angle between
+    14° and 48.1°: `elonMid ± elonRad` ⊂ [14, 48.1] (Mercury 14.1..30.8, Venus 44.6..48.1). -/
+theorem elongation_table : ∀ r ∈ generatedFinders,
+    (r.elon.isSome = (r.name.endsWith "_elongation")) ∧
+    (r.elon.isSome → 14 ≤ r.elonMid - r.elonRad ∧ r.elonMid + r.elonRad ≤ 481 / 10) := by decide +kernel
+
+/-- "elongation maximal and equal to the reported angle" - the structural half: for every accepted query the
+    reported angle is a number in [14°, 48.1°], within `elonRad` of `elonMid`; in particular
+    `Angle(elon).to_positive()` never reduces or reflects it (it is already in [0, 360)).
+    That it EQUALS the maximal elongation of the VSOP87 positions is measured, not proved. -/
+theorem elongation_reported_in_range : ∀ r ∈ generatedFinders, ∀ e, r.elon = some e → ∀ y : ℝ, -2000 ≤ y → y ≤ 4000 →
+    ∃ a, finder_elon r (finder_k r y) = some a ∧ |a - ((r.elonMid : ℚ) : ℝ)| ≤ ((r.elonRad : ℚ) : ℝ) ∧
+      14 ≤ a ∧ a ≤ 48.1 := by
+  intro r hr e he y h1 h2
+  have h := okR_of_ok (all_finders_ok r hr)
+  have tb := (elongation_table r hr).2 (by rw [he]; rfl)
+  have lo : ((14 : ℚ) : ℝ) ≤ ((r.elonMid - r.elonRad : ℚ) : ℝ) := Rat.cast_le.2 tb.1
+  have hi : ((r.elonMid + r.elonRad : ℚ) : ℝ) ≤ ((481 / 10 : ℚ) : ℝ) := Rat.cast_le.2 tb.2
+  push_cast at lo hi
+  obtain ⟨a, ha, hb, _, _⟩ := elon_bound r e he (finder_k r y) (t_bound h h1 h2) (by linarith) (by linarith)
+  have b := abs_le.1 hb
+  exact ⟨a, ha, hb, by linarith [b.1], by norm_num; linarith [b.2]⟩
+
+/-- The range guard at its boundary values: the queries `year() = -2000.0` and `year() = 4000.0` themselves are
+    accepted (`<` and `>`, not `<=` / `>=`), anything beyond is refused. -/
+theorem range_boundaries_accepted : ∀ r ∈ generatedFinders,
+    (∃ a, finder_raw r (-2000) = .ok a) ∧ (∃ a, finder_raw r 4000 = .ok a) ∧
+    (∀ ε : ℝ, 0 < ε → finder_raw r (-2000 - ε) = .error .valueError ∧ finder_raw r (4000 + ε) = .error .valueError) := by
+  intro r hr
+  refine ⟨⟨_, (range_check r hr (-2000)).2 (by norm_num)⟩, ⟨_, (range_check r hr 4000).2 (by norm_num)⟩, ?_⟩
+  intro ε hε
+  exact ⟨(range_check r hr _).1.2 (Or.inl (by linarith)), (range_check r hr _).1.2 (Or.inr (by linarith))⟩
+
+/-- perihelion_aphelion: the count chosen for a query is the admissible count NEAREST to `C (year − Y0)`: it differs
+    from it by at most 1/2, for both variants and on both sides of the reference epoch (a count obtained by
+    truncation, `int(k) + 0.5`, is up to 1.5 away for negative k). -/
+theorem pa_count_is_nearest : ∀ r ∈ generatedPA, ∀ (p : Bool) (y : ℝ),
+    |pa_k r y p - ofDec r.C * (y - ofDec r.Y0)| ≤ 1 / 2 := by
+  intro r _ p y
+  rw [pa_k_eq]
+  have := kround_sub_le (ofDec r.C * (y - ofDec r.Y0) + paOff r p)
+  rw [abs_sub_comm] at this
+  have e : (kround (ofDec r.C * (y - ofDec r.Y0) + paOff r p) : ℝ) - paOff r p - ofDec r.C * (y - ofDec r.Y0)
+      = (kround (ofDec r.C * (y - ofDec r.Y0) + paOff r p) : ℝ) - (ofDec r.C * (y - ofDec r.Y0) + paOff r p) := by ring
+  rw [e]; exact this
+
+/-- The three interpolation abscissae `jde - δ, jde, jde + δ`: the bracket is at least half a day each way (the
+    mean-period first approximation is not better than that), brackets of consecutive orbits cannot overlap
+    (`2δ < P − var`), and half a period exceeds the variation.  Decided on the regenerated records. -/
+theorem pa_bracket_table : ∀ r ∈ generatedPA,
+    1 / 2 ≤ r.delta.toRat ∧ 2 * r.delta.toRat < r.P.toRat - r.var ∧ 0 < r.P.toRat / 2 - r.var := by decide +kernel
+
+/-- perihelion_aphelion beyond the first approximation, PARTIAL: IF the value returned for a count lies in that
+    count's bracket `[jde − δ, jde + δ]` (which is what `Interpolation.minmax` promises when it returns, C12; that
+    it does return, and that the point is the extremum of the VSOP87 radius vector, is not proved here - see the
+    known finding for Jupiter and Saturn), THEN results of different orbits are strictly ordered and at least
+    `P − var − 2δ > 0` apart.  Full statement wanted: the same without the bracket hypothesis. -/
+theorem pa_results_ordered_partial : ∀ r ∈ generatedPA, ∀ (p : Bool) (k k' x x' : ℝ),
+    |k| ≤ ((r.kMax : ℚ) : ℝ) → |k'| ≤ ((r.kMax : ℚ) : ℝ) → k + 1 ≤ k' →
+    |x - pa_jde r k p| ≤ ofDec r.delta → |x' - pa_jde r k' p| ≤ ofDec r.delta →
+    x < x' ∧ ofDec r.P - ((r.var : ℚ) : ℝ) - 2 * ofDec r.delta ≤ x' - x := by
+  intro r hr p k k' x x' hk hk' h1 hx hx'
+  have h := okPA_of_ok (all_pa_ok r hr)
+  have g := pa_jde_gap h p hk hk' h1
+  have t := (pa_bracket_table r hr).2.1
+  have tR : ((2 * r.delta.toRat : ℚ) : ℝ) < ((r.P.toRat - r.var : ℚ) : ℝ) := Rat.cast_lt.2 t
+  push_cast at tR
+  have d1 : ofDec r.delta = ((r.delta.toRat : ℚ) : ℝ) := rfl
+  have d2 : ofDec r.P = ((r.P.toRat : ℚ) : ℝ) := rfl
+  rw [← d1, ← d2] at tR
+  have a := abs_le.1 hx
+  have b := abs_le.1 hx'
+  constructor <;> linarith [a.1, a.2, b.1, b.2]
+
+/-- Perihelia and aphelia alternate: the first approximation of the aphelion with count `n + 1/2` lies strictly
+    between those of the perihelia `n` and `n + 1` (Earth's periodic terms, which differ between the two
+    variants, included). -/
+theorem perihelia_and_aphelia_alternate : ∀ r ∈ generatedPA, ∀ n : ℤ, |(n : ℝ)| + 1 ≤ ((r.kMax : ℚ) : ℝ) →
+    pa_jde r n true < pa_jde r ((n : ℝ) + 1 / 2) false ∧ pa_jde r ((n : ℝ) + 1 / 2) false < pa_jde r ((n : ℝ) + 1) true := by
+  intro r hr n hn
+  have t := (pa_bracket_table r hr).2.2
+  have tR : ((0 : ℚ) : ℝ) < ((r.P.toRat / 2 - r.var : ℚ) : ℝ) := Rat.cast_lt.2 t
+  push_cast at tR
+  have d2 : ofDec r.P = ((r.P.toRat : ℚ) : ℝ) := rfl
+  rw [← d2] at tR
+  have a0 : |(n : ℝ)| ≤ ((r.kMax : ℚ) : ℝ) := by linarith
+  have a1 : |(n : ℝ) + 1 / 2| ≤ ((r.kMax : ℚ) : ℝ) := by
+    have := abs_add_le (n : ℝ) (1 / 2); rw [abs_of_pos (by norm_num : (0 : ℝ) < 1 / 2)] at this; linarith
+  have a2 : |(n : ℝ) + 1| ≤ ((r.kMax : ℚ) : ℝ) := by
+    have := abs_add_le (n : ℝ) 1; rw [abs_one] at this; linarith
+  exact ⟨pa_jde_lt_half tR true false a0 a1 (le_refl _), pa_jde_lt_half tR false true a1 a2 (by linarith)⟩
+
+/-- Every multiplier `j` in `sin(j*m)` / `cos(j*m)` of every series (time and elongation) is a whole number. -/
+theorem series_multipliers_integral : ∀ r ∈ generatedFinders,
+    r.corr.integral = true ∧ (∀ e, r.elon = some e → e.integral = true) := by decide +kernel
+
+/-- The `Angle(...)` normalisations are invisible: `m = Angle(m0 + k*m1).to_positive().rad()` and
+    `aa = Angle(c0 + c1*t).rad()` differ from the raw angles by whole turns only, so in exact arithmetic `corr` is
+    Meeus' formula evaluated at the raw angles `radians(M0 + k M1)` and `radians(c0 + c1 t)` - for every count `k`,
+    no range restriction.  (A reduction by anything but whole turns, or a non-integral multiplier, would break it.) -/
+theorem angle_normalisation_invisible : ∀ r ∈ generatedFinders, ∀ k : ℤ,
+    finder_corr r k =
+      evalE (finder_t r (finder_jde0 r k)) (pradians (ofDec r.M0 + ofInt k * ofDec r.M1))
+        (r.aux.map fun c => pradians (ofDec c.1 + ofDec c.2 * finder_t r (finder_jde0 r k))) r.corr := by
+  intro r hr k
+  unfold finder_corr
+  exact evalE_congr _ (finder_m_congr r k) (finder_aux_congr r _) r.corr (series_multipliers_integral r hr).1
+
+/-- The mean anomaly handed to the series is in the first turn: `0 ≤ m < 2π` (what `.to_positive()` is for). -/
+theorem mean_anomaly_in_first_turn : ∀ r : Finder, ∀ k : ℤ, 0 ≤ finder_m r k ∧ finder_m r k < 2 * Real.pi := by
+  intro r k
+  obtain ⟨a, b⟩ := to_positive_range _ (reduce_deg_range (ofDec r.M0 + ofInt k * ofDec r.M1))
+  unfold finder_m pradians
+  have hp := Real.pi_pos
+  constructor
+  · positivity
+  · have : fnd_to_positive (fnd_reduce_deg (ofDec r.M0 + ofInt k * ofDec r.M1)) * (Real.pi / 180) < 360 * (Real.pi / 180) :=
+      mul_lt_mul_of_pos_right b (by positivity)
+    linarith
+
+/-- passage_nodes, "the result lies within one period of the query" - the two-body half: for an elliptic orbit
+    (0 ≤ e < 1, a > 0) `passage_nodes_elliptic` (model of templates/Kepler.lean, C11) returns a time strictly less
+    than half an orbital period (180/n days, n = 0.9856076686 / a^1.5 degrees per day) from the perihelion time it
+    is given, for either node and any argument of perihelion.  With the perihelion within half a period (+ bracket)
+    of the query this is the clause; that the perihelion chosen IS that near is only true up to the drift of the
+    linear count (known finding C13-mercury-nodes-beyond-one-period), and the VSOP87 stage in between is not
+    modelled. -/
+theorem node_passage_within_half_period_of_perihelion : ∀ (e a ω T : ℝ) (asc : Bool), 0 ≤ e → e < 1 → 0 < a →
+    ∃ t r, GenR.Kepler.passage_nodes_elliptic ω e a T asc = .ok (t, r) ∧
+      |t - T| < 180 / (0.9856076686 / (a * Real.sqrt a)) :=
+  fun _ _ ω T asc h0 h1 ha => Refine.FinderNodes.node_within_half_period h0 h1 ha ω T asc
+
 /-! ### The hypotheses are satisfiable -/
 
 example : Mercury_inferior_conjunction ∈ generatedFinders := by simp [generatedFinders]
@@ -401,5 +545,33 @@ example : ∀ r ∈ generatedFinders, ∃ e a, finder_from_jde r 2451545 = .ok (
 /-- a refused query instant: 4000 January 2.0 -/
 example : ∀ r ∈ generatedFinders, finder_from_jde r 3182030.5 = .error .valueError :=
   fun r hr => (range_check_jde r hr 3182030.5 (by norm_num) (by unfold jMax; norm_num)).2.2 (Or.inr (by unfold jHi; norm_num))
+
+/-- an elongation finder exists and an accepted query for it: `elongation_reported_in_range` is not vacuous -/
+example : ∃ r ∈ generatedFinders, ∃ e, r.elon = some e ∧ ∃ a, finder_elon r (finder_k r 1993.75) = some a ∧ 14 ≤ a := by
+  refine ⟨Mercury_western_elongation, by simp [generatedFinders], _, rfl, ?_⟩
+  obtain ⟨a, ha, _, h14, _⟩ := elongation_reported_in_range Mercury_western_elongation (by simp [generatedFinders]) _ rfl
+    1993.75 (by norm_num) (by norm_num)
+  exact ⟨a, ha, h14⟩
+/-- counts 0 and 1 with brackets: the hypotheses of `pa_results_ordered_partial` hold for the centres themselves -/
+example : ∀ r ∈ generatedPA, pa_jde r 0 true < pa_jde r 1 true := by
+  intro r hr
+  have hk : (1 : ℝ) ≤ ((r.kMax : ℚ) : ℝ) := by
+    have h := (okPA_of_ok (all_pa_ok r hr)).hk1
+    have hC := (okPA_of_ok (all_pa_ok r hr)).hC
+    have h2 := (okPA_of_ok (all_pa_ok r hr)).hk2
+    nlinarith
+  have d0 : (0 : ℝ) ≤ ofDec r.delta := by
+    have t := (pa_bracket_table r hr).1
+    have : ((1 / 2 : ℚ) : ℝ) ≤ ((r.delta.toRat : ℚ) : ℝ) := Rat.cast_le.2 t
+    have e : ofDec r.delta = ((r.delta.toRat : ℚ) : ℝ) := rfl
+    rw [e]; push_cast at this; linarith
+  exact (pa_results_ordered_partial r hr true 0 1 _ _ (by simpa using le_trans zero_le_one hk) (by simpa using hk)
+    (by norm_num) (by simpa using d0) (by simpa using d0)).1
+
+/-- Mercury's orbit (e = 0.2056, a = 0.3871) satisfies the hypotheses of `node_passage_within_half_period_of_perihelion` -/
+example : ∃ t r, GenR.Kepler.passage_nodes_elliptic 29.1 0.2056 0.3871 2451590.257 true = .ok (t, r) := by
+  obtain ⟨t, r, h, _⟩ := node_passage_within_half_period_of_perihelion 0.2056 0.3871 29.1 2451590.257 true
+    (by norm_num) (by norm_num) (by norm_num)
+  exact ⟨t, r, h⟩
 
 end Pymeeus.C13
